@@ -15,7 +15,7 @@ struct GT {                       // ground truth: each link decoded on its own 
   }
 };
 
-struct ChainOpts { int maxlinks = 4; int64_t maxN = 30000; bool allow_zero = true; int maxch = 6; bool comments = true; bool multiplex = false; bool half = false; bool even_interior = false; int vgen_pct = 0; int vgen_min_bslog = 6; int vgen_64_pct = 25; };
+struct ChainOpts { int maxlinks = 4; int64_t maxN = 30000; bool allow_zero = true; int maxch = 6; bool comments = true; bool multiplex = false; bool half = false; bool even_interior = false; int vgen_pct = 0; int vgen_min_bslog = 6; int vgen_64_pct = 25; bool vgen_big = false; int vgen_maxch = 0; };
 
 static const long kVfRates[] = {44100, 8000, 22050, 16000, 11025, 48000, 32000, 12000, 24000, 96000};
 
@@ -66,6 +66,8 @@ static inline bool gen_chain(Tape &t, Report &r, const ChainOpts &o, Chain &c, G
       draw_serial();
       // a link synthesised by vgen: any block sizes from 64 up, any channel count, structure the bundled encoder never emits
       vg::GenOpts go; go.simple = true; go.maxch = o.maxch; go.min_bslog = o.vgen_min_bslog; go.max_bslog = t.chance(1, 8) ? 12 : 10; if ((int)t.below(100) < o.vgen_64_pct) go.force_bs0log = 6;
+      if (o.vgen_big) { static const int bigs[] = {0, 0, 3, 8, 14, 20, 28}; go.big = bigs[t.below(7)]; }
+      if (o.vgen_maxch) go.maxch = o.vgen_maxch;
       int npk = 2 + (int)t.below(t.chance(1, 3) ? 60 : 14); vg::GenStream gs; int32_t ser = s.serial; vg::gen_stream(t, go, npk, gs, ser);
       if (!gs.ok) return r.harness("vgen link: %s", gs.err.c_str());
       s = gs.ls; s.serial = ser;
